@@ -97,3 +97,59 @@ def relative_internal_dir(model, payload):
     finally:
         os.chdir(cwd)
         shutil.rmtree(d, ignore_errors=True)
+
+
+def store_ops(model, payload):
+    """LocalFileStore blob operations from every state an earlier (possibly interrupted) run can leave behind:
+    leftovers <key>.tmp / <key>.meta.tmp / <key>.meta / a complete earlier blob of another type, then
+    store_blob(key, v): afterwards has_blob(key), fetch_blob(key) == v (decoded with the codec that wrote it),
+    the metadata names that codec, no other key is affected; has_blob / fetch_blob change nothing."""
+    import json
+
+    values = [("text", "héllo\nworld"), ("bytes", b"\x00\xffraw"), ("object", {"a": [1, 2]})]
+    leftovers = ["tmp", "meta_tmp", "meta_of_text", "meta_of_bytes", "complete_text", "complete_bytes", "complete_object"]
+    for r in range(0, 3):
+        for combo in itertools.combinations(leftovers, r):
+            for vname, v in values:
+                d, st = _mk()
+                try:
+                    blobs = os.path.join(d, "internal", "blobs")
+                    st.store_blob("other", "untouched", None)
+                    for lo in combo:
+                        if lo == "tmp":
+                            open(os.path.join(blobs, "k.tmp"), "wb").write(b"partial")
+                        elif lo == "meta_tmp":
+                            open(os.path.join(blobs, "k.meta.tmp"), "wb").write(b"{")
+                        elif lo.startswith("meta_of_"):
+                            donor = "donor_" + lo
+                            st.store_blob(donor, dict(values)[lo[len("meta_of_"):]], None)
+                            shutil.copy(os.path.join(blobs, donor + ".meta"), os.path.join(blobs, "k.meta"))
+                        elif lo.startswith("complete_"):
+                            st.store_blob("k", dict(values)[lo[len("complete_"):]], None)
+                    tag = "leftovers %s, then store_blob('k', <%s>)" % (list(combo), vname)
+                    try:
+                        st.store_blob("k", v, None)
+                    except BaseException as e:
+                        return {"reproduced": True, "detail": "%s raised %s: %s" % (tag, type(e).__name__, e), "inputs": {"leftovers": list(combo), "value": vname}}
+                    if not st.has_blob("k"):
+                        return {"reproduced": True, "detail": "%s: has_blob('k') is False afterwards" % tag, "inputs": {"leftovers": list(combo), "value": vname}}
+                    try:
+                        got = st.fetch_blob("k")
+                    except BaseException as e:
+                        got = "<%s: %s>" % (type(e).__name__, str(e)[:60])
+                    if got != v:
+                        return {"reproduced": True, "detail": "%s: fetch_blob('k') -> %r" % (tag, got), "inputs": {"leftovers": list(combo), "value": vname}}
+                    meta = json.load(open(os.path.join(blobs, "k.meta")))
+                    want = {"text": "local.string", "bytes": "local.bytes", "object": "local.pickle"}[vname]
+                    if not str(meta.get("protocol", "")).endswith(want.split(".")[1]):
+                        return {"reproduced": True, "detail": "%s: metadata names %r, the value was written by the %s codec" % (tag, meta.get("protocol"), want), "inputs": {"leftovers": list(combo), "value": vname}}
+                    if st.fetch_blob("other") != "untouched":
+                        return {"reproduced": True, "detail": "%s: another key was affected" % tag, "inputs": {"leftovers": list(combo), "value": vname}}
+                    # a second store object (another process) sees the same
+                    from dds.store import LocalFileStore
+
+                    if LocalFileStore(os.path.join(d, "internal"), os.path.join(d, "data")).fetch_blob("k") != v:
+                        return {"reproduced": True, "detail": "%s: another store object reads a different value" % tag, "inputs": {"leftovers": list(combo), "value": vname}}
+                finally:
+                    shutil.rmtree(d, ignore_errors=True)
+    return {"reproduced": False, "detail": "store_blob / has_blob / fetch_blob behave as specified from all %d leftover states x 3 value types" % sum(1 for r in range(3) for _ in itertools.combinations(leftovers, r))}
